@@ -650,13 +650,13 @@ def c20_cases(run):
         (toks, d), sl = job
         msgs = c20_messages(toks, d)
         # everything but `shutdown` / `exit` in one write; they follow only when every request has been answered (or
-        # after two minutes): an answer that needs further input to come out has been held back
+        # after five minutes): an answer that needs further input to come out has been held back
         main = b"".join(lc.frame(m) for m in msgs[:-2])
         end = b"".join(lc.frame(m) for m in msgs[-2:])
         want = [100000] + [k for k, t in enumerate(toks) if t[0] in "PFUMH"]
         # default multi-threaded runtime (all cores); slow = the client does not read for the first 1.5 s: the stdout
         # pipe, the responder channel and the broker fill up
-        return lc.run_session_wait(main, end, want, wait=120.0, timeout=120, workers=None, read_after=1.5 if sl else None)
+        return lc.run_session_wait(main, end, want, wait=300.0, timeout=300, workers=None, read_after=1.5 if sl else None)
 
     with ThreadPoolExecutor(max_workers=4) as ex:
         results = list(ex.map(one, list(zip(hists, slow))))
